@@ -33,6 +33,6 @@ theorem keys_are_structural (a b : Key) : (a == b) = true ↔ Key.beq a b = true
 on anything but the set of printed pairs when the printed keys are distinct -/
 theorem insertByKey_sorted_head (p q : String × String) (r : List (String × String)) (h : p.1 < q.1) :
     insertByKey p (q :: r) = p :: q :: r := by
-  simp [insertByKey, h]
+  simp [insertByKey, String.lt_asymm h]
 
 end UH.C20
